@@ -16,12 +16,23 @@
 (*   StrongThroughLog a strong read is an entry in the log (not a local read on a leader)         *)
 (*   SignalConfig     FSM progress is signalled for configuration entries (StoreConfiguration)    *)
 (*   SignalBarrier    FSM progress is signalled when a barrier completes                          *)
+(*                                                                                               *)
+(* Log compaction (MaxSnaps > 0): a node snapshots its database at its FSM position and discards *)
+(* the log up to there (TakeSnapshot); a leader that no longer has the entry a follower needs    *)
+(* sends the snapshot instead (InstallSnapshot: the follower's database is REPLACED, its FSM      *)
+(* position and fsmTarget move to the snapshot index); a restart starts from the snapshot.       *)
+(* `log` stays the full sequence as a ghost; what a node can still SEND is log above snapIdx.     *)
+(*   SnapAtApplied      the snapshot is labelled with the FSM position (not the commit index)     *)
+(*   InstallReplacesDb  installing a snapshot replaces the database (not: keeps it, moves index)  *)
+(*   SignalRestore      installing a snapshot signals fsmTarget at the snapshot index             *)
 EXTENDS Naturals, Sequences, FiniteSets, TLC, RqRead
 
 CONSTANTS Node, MaxTerm, MaxLog, NonCmdKinds,
           MaxRestarts,   \* node restarts explored (volatile state lost: role, commit index, FSM position, strongReadTerm)
           WarmStart,     \* start from the (reachable) state "stable leader in term 1 that has served a strong read"
-          StrongThroughLog, SignalConfig, SignalBarrier    \* + UpgradeStrong, VerifyQuorum, RecheckTerm of RqRead
+          StrongThroughLog, SignalConfig, SignalBarrier,   \* + UpgradeStrong, VerifyQuorum, RecheckTerm of RqRead
+          MaxSnaps,      \* snapshots (with log truncation) explored
+          SnapAtApplied, InstallReplacesDb, SignalRestore
 
 VARIABLES role,        \* [Node -> {"F","L"}]
           term,        \* [Node -> Nat]
@@ -32,9 +43,14 @@ VARIABLES role,        \* [Node -> {"F","L"}]
           srt,         \* [Node -> Nat]  strongReadTerm
           ackedIdx,    \* highest index of a write acknowledged to a client
           rd,          \* the in-flight read (one at a time)
-          nrestart
+          nrestart,
+          db,          \* [Node -> SUBSET Nat]  the database: indexes of the writes it contains
+          snapIdx,     \* [Node -> Nat]  index the node's newest snapshot is labelled with (log at or below is gone)
+          snapDb,      \* [Node -> SUBSET Nat]  the database inside that snapshot
+          nsnap
 
-vars == <<role, term, log, commitIdx, lastApplied, sig, srt, ackedIdx, rd, nrestart>>
+vars == <<role, term, log, commitIdx, lastApplied, sig, srt, ackedIdx, rd, nrestart, db, snapIdx, snapDb, nsnap>>
+snapvars == <<db, snapIdx, snapDb, nsnap>>
 
 Quorums == {Q \in SUBSET Node : Cardinality(Q) * 2 > Cardinality(Node)}
 LastTerm(l) == IF Len(l) = 0 THEN 0 ELSE l[Len(l)].term
@@ -45,18 +61,20 @@ Min(a, b) == IF a < b THEN a ELSE b
 
 (* the read protocol's decisions LrCheck / LrTermOK / LrMayServe come from RqRead *)
 
-NoRead == [pc |-> "idle", node |-> CHOOSE n \in Node : TRUE, rterm |-> 0, ridx |-> 0, minIdx |-> 0, served |-> 0, lvl |-> "lin"]
+NoRead == [pc |-> "idle", node |-> CHOOSE n \in Node : TRUE, rterm |-> 0, ridx |-> 0, minIdx |-> 0, served |-> 0, lvl |-> "lin", seen |-> {}]
 
 ColdInit == /\ role = [n \in Node |-> "F"] /\ term = [n \in Node |-> 0]
             /\ log = [n \in Node |-> <<>>] /\ commitIdx = [n \in Node |-> 0]
             /\ lastApplied = [n \in Node |-> 0] /\ sig = [n \in Node |-> 0]
             /\ srt = [n \in Node |-> 0] /\ ackedIdx = 0 /\ rd = NoRead /\ nrestart = 0
+            /\ db = [n \in Node |-> {}] /\ snapIdx = [n \in Node |-> 0] /\ snapDb = [n \in Node |-> {}] /\ nsnap = 0
 (* reachable from ColdInit: ld elected in term 1, no-op and one strong read replicated, committed and applied *)
 WarmInit == \E ld \in Node :
             /\ role = [n \in Node |-> IF n = ld THEN "L" ELSE "F"] /\ term = [n \in Node |-> 1]
             /\ log = [n \in Node |-> <<[term |-> 1, kind |-> "N"], [term |-> 1, kind |-> "Q"]>>]
             /\ commitIdx = [n \in Node |-> 2] /\ lastApplied = [n \in Node |-> 2] /\ sig = [n \in Node |-> 2]
             /\ srt = [n \in Node |-> IF n = ld THEN 1 ELSE 0] /\ ackedIdx = 0 /\ rd = NoRead /\ nrestart = 0
+            /\ db = [n \in Node |-> {}] /\ snapIdx = [n \in Node |-> 0] /\ snapDb = [n \in Node |-> {}] /\ nsnap = 0
 Init == IF WarmStart THEN WarmInit ELSE ColdInit
 
 (* ------------------------------ abstract Raft ------------------------------ *)
@@ -71,23 +89,24 @@ BecomeLeader(n, Q) ==
      /\ term' = [m \in Node |-> IF m \in Q THEN t ELSE term[m]]
      /\ role' = [m \in Node |-> IF m = n THEN "L" ELSE IF m \in Q THEN "F" ELSE role[m]]
      /\ log' = [log EXCEPT ![n] = Append(@, [term |-> t, kind |-> "N"])]
-  /\ UNCHANGED <<commitIdx, lastApplied, sig, srt, ackedIdx, rd, nrestart>>
+  /\ UNCHANGED <<commitIdx, lastApplied, sig, srt, ackedIdx, rd, nrestart, snapvars>>
 
 StepDown(n) == /\ role[n] = "L" /\ role' = [role EXCEPT ![n] = "F"]   \* lease lost, same term
-               /\ UNCHANGED <<term, log, commitIdx, lastApplied, sig, srt, ackedIdx, rd, nrestart>>
+               /\ UNCHANGED <<term, log, commitIdx, lastApplied, sig, srt, ackedIdx, rd, nrestart, snapvars>>
 
 UpdateTerm(i, j) == /\ term[j] > term[i]
                     /\ term' = [term EXCEPT ![i] = term[j]]
                     /\ role' = [role EXCEPT ![i] = "F"]
-                    /\ UNCHANGED <<log, commitIdx, lastApplied, sig, srt, ackedIdx, rd, nrestart>>
+                    /\ UNCHANGED <<log, commitIdx, lastApplied, sig, srt, ackedIdx, rd, nrestart, snapvars>>
 
 GetEntry(i, j) ==
   /\ role[j] = "L" /\ i # j /\ term[i] = term[j]
   /\ Len(log[i]) < Len(log[j])
+  /\ Len(log[i]) >= snapIdx[j]            \* below that the leader has only its snapshot: InstallSnapshot
   /\ LET k == Len(log[i]) IN
        /\ (IF k = 0 THEN TRUE ELSE log[i][k] = log[j][k])
        /\ log' = [log EXCEPT ![i] = Append(@, log[j][k+1])]
-  /\ UNCHANGED <<role, term, commitIdx, lastApplied, sig, srt, ackedIdx, rd, nrestart>>
+  /\ UNCHANGED <<role, term, commitIdx, lastApplied, sig, srt, ackedIdx, rd, nrestart, snapvars>>
 
 Truncate(i, j) ==
   /\ role[j] = "L" /\ i # j /\ term[i] = term[j]
@@ -95,7 +114,7 @@ Truncate(i, j) ==
   /\ LET k == Len(log[i]) IN (IF k > Len(log[j]) THEN TRUE ELSE log[i][k] # log[j][k])
   /\ Len(log[i]) > commitIdx[i]
   /\ log' = [log EXCEPT ![i] = SubSeq(@, 1, Len(@) - 1)]
-  /\ UNCHANGED <<role, term, commitIdx, lastApplied, sig, srt, ackedIdx, rd, nrestart>>
+  /\ UNCHANGED <<role, term, commitIdx, lastApplied, sig, srt, ackedIdx, rd, nrestart, snapvars>>
 
 Agree(n, k) == {m \in Node : Len(log[m]) >= k /\ log[m][k] = log[n][k] /\ term[m] = term[n]}
 AdvanceCommit(n) ==
@@ -104,14 +123,14 @@ AdvanceCommit(n) ==
        /\ log[n][k].term = term[n]
        /\ Agree(n, k) \in Quorums
        /\ commitIdx' = [commitIdx EXCEPT ![n] = k]
-  /\ UNCHANGED <<role, term, log, lastApplied, sig, srt, ackedIdx, rd, nrestart>>
+  /\ UNCHANGED <<role, term, log, lastApplied, sig, srt, ackedIdx, rd, nrestart, snapvars>>
 
 LearnCommit(i, j) ==
   /\ role[j] = "L" /\ term[i] = term[j] /\ commitIdx[j] > commitIdx[i]
   /\ LET k == Min(commitIdx[j], Len(log[i])) IN
        /\ k > commitIdx[i] /\ log[i][k] = log[j][k]
        /\ commitIdx' = [commitIdx EXCEPT ![i] = k]
-  /\ UNCHANGED <<role, term, log, lastApplied, sig, srt, ackedIdx, rd, nrestart>>
+  /\ UNCHANGED <<role, term, log, lastApplied, sig, srt, ackedIdx, rd, nrestart, snapvars>>
 
 (* Raft hands entry lastApplied+1 to the FSM goroutine; only signalled kinds move fsmTarget *)
 ApplyOne(n) ==
@@ -119,28 +138,53 @@ ApplyOne(n) ==
   /\ LET k == lastApplied[n] + 1 IN
        /\ lastApplied' = [lastApplied EXCEPT ![n] = k]
        /\ sig' = [sig EXCEPT ![n] = IF Signalled(log[n][k]) THEN k ELSE @]
-  /\ UNCHANGED <<role, term, log, commitIdx, srt, ackedIdx, rd, nrestart>>
+       /\ db' = [db EXCEPT ![n] = IF log[n][k].kind = "W" THEN @ \cup {k} ELSE @]
+  /\ UNCHANGED <<role, term, log, commitIdx, srt, ackedIdx, rd, nrestart, snapIdx, snapDb, nsnap>>
 
 (* process restart: the log is durable; role, commit index, FSM position, fsmTarget and strongReadTerm are not *)
 (* (Store.Open resets them: fsm.reset); an in-flight read on that node is gone                              *)
 Restart(n) ==
   /\ nrestart < MaxRestarts
-  /\ role' = [role EXCEPT ![n] = "F"] /\ commitIdx' = [commitIdx EXCEPT ![n] = 0]
-  /\ lastApplied' = [lastApplied EXCEPT ![n] = 0] /\ sig' = [sig EXCEPT ![n] = 0] /\ srt' = [srt EXCEPT ![n] = 0]
+  /\ role' = [role EXCEPT ![n] = "F"] /\ commitIdx' = [commitIdx EXCEPT ![n] = snapIdx[n]]
+  /\ lastApplied' = [lastApplied EXCEPT ![n] = snapIdx[n]] /\ db' = [db EXCEPT ![n] = snapDb[n]]
+  /\ sig' = [sig EXCEPT ![n] = 0] /\ srt' = [srt EXCEPT ![n] = 0]
   /\ rd' = IF rd.pc # "idle" /\ rd.node = n THEN NoRead ELSE rd
   /\ nrestart' = nrestart + 1
-  /\ UNCHANGED <<term, log, ackedIdx>>
+  /\ UNCHANGED <<term, log, ackedIdx, snapIdx, snapDb, nsnap>>
+
+(* ------------------------------ log compaction ------------------------------ *)
+(* Store.Snapshot + raft's log truncation: the database as of the FSM position, labelled with that index *)
+TakeSnapshot(n) ==
+  /\ nsnap < MaxSnaps /\ lastApplied[n] > snapIdx[n]
+  /\ snapIdx' = [snapIdx EXCEPT ![n] = IF SnapAtApplied THEN lastApplied[n] ELSE commitIdx[n]]
+  /\ snapDb' = [snapDb EXCEPT ![n] = db[n]]
+  /\ nsnap' = nsnap + 1
+  /\ UNCHANGED <<role, term, log, commitIdx, lastApplied, sig, srt, ackedIdx, rd, nrestart, db>>
+
+(* the leader no longer has what follower i needs next: raft streams the leader's snapshot, the follower's *)
+(* FSM restores it (Store.fsmRestore: swap the database, fsmIdx / fsmTarget := snapshot index)             *)
+InstallSnapshot(i, j) ==
+  /\ role[j] = "L" /\ i # j /\ term[i] = term[j]
+  /\ Len(log[i]) < snapIdx[j]
+  /\ (Len(log[i]) > 0 => Len(log[i]) <= commitIdx[i] \/ log[i][Len(log[i])] = log[j][Len(log[i])])
+  /\ log' = [log EXCEPT ![i] = SubSeq(log[j], 1, snapIdx[j])]
+  /\ snapIdx' = [snapIdx EXCEPT ![i] = snapIdx[j]] /\ snapDb' = [snapDb EXCEPT ![i] = snapDb[j]]
+  /\ commitIdx' = [commitIdx EXCEPT ![i] = Max(@, snapIdx[j])]
+  /\ lastApplied' = [lastApplied EXCEPT ![i] = snapIdx[j]]
+  /\ db' = [db EXCEPT ![i] = IF InstallReplacesDb THEN snapDb[j] ELSE @]
+  /\ sig' = [sig EXCEPT ![i] = IF SignalRestore THEN Max(@, snapIdx[j]) ELSE @]
+  /\ UNCHANGED <<role, term, srt, ackedIdx, rd, nrestart, nsnap>>
 
 (* ------------------------------ rqlite layer ------------------------------ *)
 ClientWrite(n) ==
   /\ role[n] = "L" /\ Len(log[n]) < MaxLog
   /\ log' = [log EXCEPT ![n] = Append(@, [term |-> term[n], kind |-> "W"])]
-  /\ UNCHANGED <<role, term, commitIdx, lastApplied, sig, srt, ackedIdx, rd, nrestart>>
+  /\ UNCHANGED <<role, term, commitIdx, lastApplied, sig, srt, ackedIdx, rd, nrestart, snapvars>>
 
 NonCmdEntry(n, kd) ==   \* join / remove (C) or Store.Barrier (B)
   /\ role[n] = "L" /\ Len(log[n]) < MaxLog
   /\ log' = [log EXCEPT ![n] = Append(@, [term |-> term[n], kind |-> kd])]
-  /\ UNCHANGED <<role, term, commitIdx, lastApplied, sig, srt, ackedIdx, rd, nrestart>>
+  /\ UNCHANGED <<role, term, commitIdx, lastApplied, sig, srt, ackedIdx, rd, nrestart, snapvars>>
 
 (* a write is acknowledged by the leader that appended it, once its FSM applied it *)
 AckWrite(n) ==
@@ -148,14 +192,14 @@ AckWrite(n) ==
   /\ \E k \in 1..lastApplied[n] :
        /\ log[n][k].kind = "W" /\ log[n][k].term = term[n] /\ k > ackedIdx
        /\ ackedIdx' = k
-  /\ UNCHANGED <<role, term, log, commitIdx, lastApplied, sig, srt, rd, nrestart>>
+  /\ UNCHANGED <<role, term, log, commitIdx, lastApplied, sig, srt, rd, nrestart, snapvars>>
 
 (* ---- Query(level): readTerm := CurrentTerm(), then the level's path ---- *)
 RdInvoke(n, lvl) ==
   /\ rd.pc = "idle"
   /\ rd' = [NoRead EXCEPT !.pc = IF lvl = "lin" THEN "chk" ELSE "strong", !.node = n, !.rterm = term[n],
                           !.minIdx = ackedIdx, !.lvl = lvl]
-  /\ UNCHANGED <<role, term, log, commitIdx, lastApplied, sig, srt, ackedIdx, nrestart>>
+  /\ UNCHANGED <<role, term, log, commitIdx, lastApplied, sig, srt, ackedIdx, nrestart, snapvars>>
 
 (* waitForLinearizableRead: srt check, leader check, readIndex := CommitIndex() *)
 RdCheck ==
@@ -165,7 +209,7 @@ RdCheck ==
        rd' = IF d = "upgrade" THEN [rd EXCEPT !.pc = "strong"]
              ELSE IF d = "abort" THEN NoRead
              ELSE [rd EXCEPT !.pc = "verify", !.ridx = commitIdx[n]]
-  /\ UNCHANGED <<role, term, log, commitIdx, lastApplied, sig, srt, ackedIdx, nrestart>>
+  /\ UNCHANGED <<role, term, log, commitIdx, lastApplied, sig, srt, ackedIdx, nrestart, snapvars>>
 
 (* strong read: State()==Leader, raft.Apply(Q) *)
 RdStrongSubmit ==
@@ -175,8 +219,8 @@ RdStrongSubmit ==
        ELSE IF StrongThroughLog
             THEN /\ log' = [log EXCEPT ![n] = Append(@, [term |-> term[n], kind |-> "Q"])]
                  /\ rd' = [rd EXCEPT !.pc = "swait", !.ridx = Len(log[n]) + 1]
-            ELSE /\ rd' = [rd EXCEPT !.pc = "done", !.served = lastApplied[n]] /\ UNCHANGED log
-  /\ UNCHANGED <<role, term, commitIdx, lastApplied, sig, srt, ackedIdx, nrestart>>
+            ELSE /\ rd' = [rd EXCEPT !.pc = "done", !.served = lastApplied[n], !.seen = db[n]] /\ UNCHANGED log
+  /\ UNCHANGED <<role, term, commitIdx, lastApplied, sig, srt, ackedIdx, nrestart, snapvars>>
 
 RdStrongDone ==
   /\ rd.pc = "swait"
@@ -184,9 +228,9 @@ RdStrongDone ==
        \/ /\ role[n] = "L" /\ lastApplied[n] >= rd.ridx /\ Len(log[n]) >= rd.ridx
           /\ log[n][rd.ridx].kind = "Q" /\ log[n][rd.ridx].term = term[n]
           /\ srt' = [srt EXCEPT ![n] = rd.rterm]          \* strongReadTerm.Store(readTerm)
-          /\ rd' = [rd EXCEPT !.pc = "done", !.served = rd.ridx]
+          /\ rd' = [rd EXCEPT !.pc = "done", !.served = rd.ridx, !.seen = db[n]]
        \/ /\ role[n] # "L" /\ rd' = NoRead /\ UNCHANGED srt  \* ErrNotLeader / leadership lost
-  /\ UNCHANGED <<role, term, log, commitIdx, lastApplied, sig, ackedIdx, nrestart>>
+  /\ UNCHANGED <<role, term, log, commitIdx, lastApplied, sig, ackedIdx, nrestart, snapvars>>
 
 (* VerifyLeader(): a quorum still follows n *)
 RdVerify(Q) ==
@@ -196,28 +240,29 @@ RdVerify(Q) ==
        ELSE \/ /\ n \in Q /\ role[n] = "L" /\ \A q \in Q : term[q] <= term[n]
                /\ rd' = [rd EXCEPT !.pc = "term"]
             \/ /\ role[n] # "L" /\ rd' = NoRead
-  /\ UNCHANGED <<role, term, log, commitIdx, lastApplied, sig, srt, ackedIdx, nrestart>>
+  /\ UNCHANGED <<role, term, log, commitIdx, lastApplied, sig, srt, ackedIdx, nrestart, snapvars>>
 
 RdTerm ==
   /\ rd.pc = "term"
   /\ rd' = IF LrTermOK(rd.rterm, term[rd.node]) THEN [rd EXCEPT !.pc = "wait"] ELSE NoRead
-  /\ UNCHANGED <<role, term, log, commitIdx, lastApplied, sig, srt, ackedIdx, nrestart>>
+  /\ UNCHANGED <<role, term, log, commitIdx, lastApplied, sig, srt, ackedIdx, nrestart, snapvars>>
 
 (* fsmTarget.Subscribe(readIndex) fires; the read is then served from the local database *)
 RdServe ==
   /\ rd.pc = "wait"
   /\ LrMayServe(sig[rd.node], rd.ridx)
-  /\ rd' = [rd EXCEPT !.pc = "done", !.served = lastApplied[rd.node]]
-  /\ UNCHANGED <<role, term, log, commitIdx, lastApplied, sig, srt, ackedIdx, nrestart>>
+  /\ rd' = [rd EXCEPT !.pc = "done", !.served = lastApplied[rd.node], !.seen = db[rd.node]]
+  /\ UNCHANGED <<role, term, log, commitIdx, lastApplied, sig, srt, ackedIdx, nrestart, snapvars>>
 
 RdFinish == /\ rd.pc = "done" /\ rd' = NoRead
-            /\ UNCHANGED <<role, term, log, commitIdx, lastApplied, sig, srt, ackedIdx, nrestart>>
+            /\ UNCHANGED <<role, term, log, commitIdx, lastApplied, sig, srt, ackedIdx, nrestart, snapvars>>
 
 Next == \/ \E n \in Node, Q \in Quorums : BecomeLeader(n, Q)
         \/ \E n \in Node : Restart(n) \/ StepDown(n) \/ AdvanceCommit(n) \/ ApplyOne(n) \/ ClientWrite(n) \/ AckWrite(n)
         \/ \E n \in Node, kd \in NonCmdKinds : NonCmdEntry(n, kd)
         \/ \E n \in Node, lv \in {"lin", "strong"} : RdInvoke(n, lv)
-        \/ \E i, j \in Node : UpdateTerm(i, j) \/ GetEntry(i, j) \/ Truncate(i, j) \/ LearnCommit(i, j)
+        \/ \E i, j \in Node : UpdateTerm(i, j) \/ GetEntry(i, j) \/ Truncate(i, j) \/ LearnCommit(i, j) \/ InstallSnapshot(i, j)
+        \/ \E n \in Node : TakeSnapshot(n)
         \/ RdCheck \/ RdStrongSubmit \/ RdStrongDone \/ RdTerm \/ RdServe \/ RdFinish
         \/ \E Q \in Quorums : RdVerify(Q)
 Spec == Init /\ [][Next]_vars
@@ -234,4 +279,11 @@ NoStuckRead == (rd.pc = "wait" /\ lastApplied[rd.node] >= rd.ridx) => sig[rd.nod
 (* C16: what a served linearizable read has been through *)
 ServedAfterProtocol == (rd.pc = "done" /\ rd.lvl = "lin" /\ rd.ridx > 0 /\ UpgradeStrong /\ RecheckTerm) =>
                           lastApplied[rd.node] >= rd.ridx
+(* the database of every node is exactly the writes of the committed log up to its FSM position -- through *)
+(* snapshots taken, installed and restarted from                                                           *)
+WritesUpTo(n, k) == {x \in 1..k : x <= Len(log[n]) /\ log[n][x].kind = "W"}
+DbIsLogPrefix == \A n \in Node : db[n] = WritesUpTo(n, lastApplied[n])
+SnapshotIsLogPrefix == \A n \in Node : snapIdx[n] <= commitIdx[n] /\ snapDb[n] = WritesUpTo(n, snapIdx[n])
+(* C02 on contents: a completed linearizable/strong read saw every write acknowledged before it began *)
+ReadSeesAcked == rd.pc = "done" => WritesUpTo(rd.node, rd.minIdx) \subseteq rd.seen
 =============================================================================
